@@ -129,10 +129,22 @@ def expected_origin(name, roots):
         if spec.origin in (None, 'built-in', 'frozen'):
             return ('loaded-only', name)
         return ('file', spec.origin)
-    if name in sys.modules:
+    if name in sys.modules and loaded_top_is_the_one_found(name, roots):
+        # a submodule its parent creates at import time (os.path): importable although no file search finds it
         m = sys.modules[name]
         return ('loaded', getattr(m, '__file__', None))
     return ('none', None)
+
+
+def loaded_top_is_the_one_found(name, roots):
+    """sys.modules of THIS process says something about `name` only if the top-level module loaded here is the very file
+    the roots lead to; a project file shadowing a stdlib package makes the loaded children unreachable"""
+    top = name.split('.')[0]
+    loaded = getattr(sys.modules.get(top), '__file__', None)
+    if not loaded:
+        return True        # builtin / frozen: always wins
+    spec = ref_find(top, roots)
+    return spec is not None and spec.origin is not None and os.path.realpath(spec.origin) == os.path.realpath(loaded)
 
 
 def supp_origin(P, name):
@@ -331,6 +343,45 @@ def strip(x, workdir):
     return (x[0], x[1].replace(workdir, '') if isinstance(x[1], str) else x[1])
 
 
+SHADOW_FILES = {'json.py': 'x = 1\n', 'email/__init__.py': '', 'email/own.py': '', 'xml/__init__.py': '', 'xml/dom.py': ''}
+SHADOW_NAMES = ['json', 'json.decoder', 'json.nosuch', 'email', 'email.own', 'email.mime', 'email.mime.text', 'email.message', 'xml.dom', 'xml.dom.minidom', 'xml.etree',
+                'os', 'os.path', 'collections.abc']
+
+
+def check_shadowed_stdlib(part):
+    """a project module / package with the name of a stdlib package whose submodules are loaded in this process:
+    what is loaded here belongs to the OTHER json / email / xml and must not be offered"""
+    import json.decoder, email.mime.text, email.message, xml.dom.minidom, xml.etree.ElementTree  # noqa: loaded on purpose
+    out = []
+    workdir = tempfile.mkdtemp(prefix='c07h_')
+    try:
+        for rel, content in SHADOW_FILES.items():
+            f = os.path.join(workdir, rel)
+            os.makedirs(os.path.dirname(f), exist_ok=True)
+            open(f, 'w').write(content)
+        importlib.invalidate_caches()
+        roots = [workdir]
+        P = Project(roots)
+        for name in SHADOW_NAMES:
+            part.count('names_resolved')
+            r = compare_name(P, name, roots, 'shadowed-stdlib')
+            if r:
+                out.append((r[0], 'name %r with a project that has %s: importlib %s, supp %s' % (name, sorted(SHADOW_FILES), strip(r[1], workdir), strip(r[2], workdir))))
+        for pkg in ('json', 'email', 'xml', 'xml.dom'):
+            part.count('listings')
+            spec = ref_find(pkg, roots)
+            exp = {m.name for m in pkgutil.iter_modules(spec.submodule_search_locations)} if spec is not None and spec.submodule_search_locations else set()
+            got = set(P.list_packages(pkg))
+            extra = {g for g in got - exp if expected_origin(pkg + '.' + g, roots)[0] == 'none'}
+            if exp - got:
+                out.append(('listing:shadowed-stdlib:missing-children', 'list_packages(%r) lacks %s' % (pkg, sorted(exp - got))))
+            if extra:
+                out.append(('listing:shadowed-stdlib:children-not-importable', 'list_packages(%r) proposes %s: loaded in this process, but as children of the stdlib package the project shadows' % (pkg, sorted(extra))))
+    finally:
+        shutil.rmtree(workdir, ignore_errors=True)
+    return out
+
+
 def check_stdlib(part):
     out = []
     workdir = tempfile.mkdtemp(prefix='c07s_')
@@ -432,6 +483,9 @@ def unit_stdlib(_):
     part.count('evaluations')
     for sig, what in check_stdlib(part):
         part.violation(sig, what, {'kind': 'stdlib'})
+    part.count('evaluations')
+    for sig, what in check_shadowed_stdlib(part):
+        part.violation(sig, what, {'kind': 'shadowed-stdlib'})
     part.outcome('stdlib')
     return part
 
@@ -446,6 +500,8 @@ def replay(w):
     part = Part()
     if w['kind'] == 'stdlib':
         return check_stdlib(part)
+    if w['kind'] == 'shadowed-stdlib':
+        return check_shadowed_stdlib(part)
     wd = tempfile.mkdtemp(prefix='c07r_')
     try:
         return check_tree(os.path.join(wd, 't'), to_t(w['t1']), to_t(w['t2']), tuple(w['top2']), w['order'], part, extensions=w.get('ext', False))
